@@ -11,6 +11,7 @@ mod c11;
 mod c14;
 mod c17;
 mod c18;
+mod c19;
 mod c20;
 mod oracle;
 mod refjson;
@@ -82,6 +83,7 @@ fn main() {
         "C14" => c14::run(&ctx),
         "C17" => c17::run(&ctx),
         "C18" => c18::run(&ctx),
+        "C19" => c19::run(&ctx),
         "C20" => c20::run(&ctx),
         "C15" => c15::run(&ctx),
         "C16" => c16::run(&ctx),
@@ -104,6 +106,7 @@ fn replay(id: &str, v: &serde_json::Value) -> i32 {
         "C14" => c14::replay(v),
         "C17" => c17::replay(v),
         "C18" => c18::replay(v),
+        "C19" => c19::replay(v),
         "C20" => c20::replay(v),
         "C15" => c15::replay(v),
         "C16" => c16::replay(v),
